@@ -115,7 +115,7 @@ def wide_documents(draw, max_subnets=9, extras=True):
         doc["step_limit"] = draw(st.integers(5, 60)) if _coin(draw, 0.8) else draw(st.sampled_from([200, 250, 601]))
     if extras and _coin(draw, 0.3):
         doc["_discovery_values"] = {a: draw(st.sampled_from(DISCOVERY_VALUES)) for a in addrs}
-    return doc
+    return _finish(draw, doc)
 
 
 DISCOVERY_VALUES = [0, 1, 2, 0.5, 5, 40, 1000]
@@ -313,20 +313,75 @@ def documents(draw, max_subnets=4, max_size=3, max_hosts=7, extras=True,
         if _coin(draw, 0.25):
             doc["_bounds"] = (N + draw(st.integers(0, 3)),
                               max(sizes) + draw(st.integers(0, 3)))
+    return _finish(draw, doc)
+
+
+ACTION_NAMES = ["service_scan", "os_scan", "subnet_scan", "process_scan", "noop", "exploit", "privilege_escalation",
+                "scan", "cost", "none", "0", "Exploit 1", "x", "é/ü", "ssh", "tomcat", "e_ssh", "pe_tomcat", "linux"]
+
+
+def _finish(draw, doc):
+    """names of exploits / escalations are arbitrary strings (the format only asks for uniqueness within
+    their section): now and then names that also occur elsewhere in the system's vocabulary - action types,
+    services, an exploit and an escalation called the same; and the address keys of the file in another
+    spelling of the same tuple"""
+    if _coin(draw, 0.2):
+        for sec in ("exploits", "privilege_escalation"):
+            old = list(doc[sec])
+            if not old:
+                continue
+            new = draw(st.lists(st.sampled_from(ACTION_NAMES), min_size=len(old), max_size=len(old), unique=True))
+            keep = draw(st.lists(st.booleans(), min_size=len(old), max_size=len(old)))
+            names = [o if k and o not in new else n for o, n, k in zip(old, new, keep)]
+            if len(set(names)) == len(names):
+                doc[sec] = {n: doc[sec][o] for o, n in zip(old, names)}
+    if _coin(draw, 0.2):
+        doc["_keyspell"] = draw(st.integers(1, 3))
+    if _coin(draw, 0.2):
+        # YAML anchors / aliases: equal sub-documents are written once and referred to (valid YAML; the
+        # parser hands the loader ONE shared object for all of them).  Make equal host configurations likely.
+        doc["_alias"] = True
+        hc = doc["host_configurations"]
+        addrs = list(hc)
+        for _ in range(draw(st.integers(0, 2))):
+            if len(addrs) < 2:
+                break
+            a, b = draw(st.lists(st.sampled_from(addrs), min_size=2, max_size=2, unique=True))
+            c = {k: (list(v) if isinstance(v, list) else ({s_: list(l) for s_, l in v.items()} if isinstance(v, dict) else v))
+                 for k, v in hc[a].items()}
+            if "value" in c and (a in doc["sensitive_hosts"] or b in doc["sensitive_hosts"]):
+                del c["value"]
+                hc[a] = dict(c)
+            hc[b] = c
     return doc
 
 
 # ------------------------------------------------------------------ YAML I/O
-def _k(t):
+_SPELL = [0]
+
+
+def _k(t, vary=False):
+    """file key of an address.  Only the sensitive_hosts keys and the source keys of host firewalls are
+    written in other spellings of the same tuple: those the loader is observed to evaluate as Python
+    tuples; host_configurations / firewall keys are matched as canonical '(a, b)' strings."""
+    sp = _SPELL[0] if vary else 0
+    if sp == 3:
+        _SPELL.append(0)
+        sp = len(_SPELL) % 3
+    if sp == 1:
+        return f"({t[0]},{t[1]})"
+    if sp == 2:
+        return f"( {t[0]} ,  {t[1]} )"
     return f"({t[0]}, {t[1]})"
 
 
 def to_yaml_obj(doc):
     """tuple keys -> '(a, b)' strings as in the documented file format."""
     out = {k: v for k, v in doc.items() if not k.startswith("_")}
+    _SPELL[:] = [doc.get("_keyspell", 0)]
     out["subnets"] = list(doc["subnets"])
     out["topology"] = [list(r) for r in doc["topology"]]
-    out["sensitive_hosts"] = {_k(a): v for a, v in doc["sensitive_hosts"].items()}
+    out["sensitive_hosts"] = {_k(a, True): v for a, v in doc["sensitive_hosts"].items()}
     out["firewall"] = {_k(a): list(v) for a, v in doc["firewall"].items()}
     out["exploits"] = {k: dict(v) for k, v in doc["exploits"].items()}
     out["privilege_escalation"] = {k: dict(v) for k, v in doc["privilege_escalation"].items()}
@@ -337,9 +392,22 @@ def to_yaml_obj(doc):
         c["processes"] = list(c["processes"])
         c.pop("discovery_value", None)
         if "firewall" in c:
-            c["firewall"] = {_k(s): list(v) for s, v in c["firewall"].items()}
+            c["firewall"] = {_k(s, True): list(v) for s, v in c["firewall"].items()}
         hc[_k(a)] = c
     out["host_configurations"] = hc
+    if doc.get("_alias"):
+        import json
+        pool = {}
+
+        def share(x):
+            return pool.setdefault(json.dumps(x, sort_keys=True, default=str), x)
+        for k in list(hc):
+            if "firewall" in hc[k]:
+                hc[k]["firewall"] = {a: share(v) for a, v in hc[k]["firewall"].items()}
+            hc[k] = share(hc[k])
+        out["firewall"] = {k: share(v) for k, v in out["firewall"].items()}
+        for sec in ("exploits", "privilege_escalation"):
+            out[sec] = {k: share(v) for k, v in out[sec].items()}
     return out
 
 
